@@ -155,10 +155,12 @@ CHECKS = {
              "same-side exits and the six-way collinear analysis never say NoIntersection for segments with a common point), C12_robust_points_sound (the touching "
              "end point chosen in each of the six selection branches, and both ends of a collinear overlap, lie on both closed segments), C12_robust_proper_sound "
              "(all arithmetic exact: the answer is 'point' with exactly the carriers' common point, which passes both envelope tests so the central-endpoint "
-             "fallback is not taken, and lies on both segments), C12_robust_none_iff_disjoint. The whole robust routine (classification, endpoint copying order, collinear case analysis, computed point with "
+             "fallback is not taken, and lies on both segments), C12_robust_none_iff_disjoint; C12_robust_collinear_exact / C12_collinear_kind_exact: for two segments of non-zero length on one line the answer is "
+             "NoIntersection, PointIntersection or CollinearIntersection exactly when the closed segments have no common point, exactly one, or two distinct ones "
+             "(the decision chain read on the parameters of c and d along a->b: kindP_point, kindP_collinear, kindP_none). The whole robust routine (classification, endpoint copying order, collinear case analysis, computed point with "
              "fallbacks) is mirrored and compared bit for bit; the oracle intersects the two point sets in exact arithmetic: type, exact shared endpoint, "
              "exact overlap endpoints, point accuracy on integer grids, and agreement of the non-robust strategy on representable inputs.",
-        note=NOTE_COMMON + "Partial: point-versus-collinear for a one-point overlap and the rounding distance of the float computation (bound 16 eps M kappa) are oracle-checked, not proved; the theorems are about exact arithmetic.",
+        note=NOTE_COMMON + "Partial: the rounding distance of the float computation (bound 16 eps M kappa) are oracle-checked, not proved; the theorems are about exact arithmetic.",
     ),
     "C15": dict(
         technique="Lean 4 theorems over linearly ordered fields (clamped-projection rule attains the minimum over the segment in 2D and 3D; segment-to-segment: the code's closest-approach parameters are the critical point of a convex quadratic, which is its global minimum, and when it leaves the unit square the minimum is on the border = the four point-to-segment problems; Lagrange identity; direction symmetry) + bit-exact Float correspondence + exact rational minimum-distance oracle",
